@@ -344,6 +344,48 @@ def e3_plans(tier, rng, workers, nexits, nlines):
 
 # ---- E4 live -------------------------------------------------------------------------------------------
 
+def pool_accounting(samples, events, nworkers, slack=3.0):
+    """Was the pool really below `nworkers` for more than `slack` seconds on end?  `samples` = [(time, set of the master's live
+    children)] as the watcher saw them, `events` = the hook log (post_fork, written by each new worker; child_exit, written by the
+    master when it has reaped one).  The size of the pool is followed over time as a step function: +1 when a worker appears (its own
+    post_fork record, else the first sample that shows it), -1 when it goes (the master's child_exit record, else the first sample
+    in which it is missing; all on one clock).  -> None, or a description of the first stretch longer than `slack` during which the
+    pool stayed below target.  Unlike 'every sample showed a short pool' this cannot be produced by sparse samples of a pool whose
+    workers live for a few requests and are replaced each time."""
+    if not samples:
+        return None
+    born, gone = {}, {}
+    prev = None
+    for t, pids in samples:
+        for p in pids:
+            born.setdefault(p, t)
+        if prev is not None:
+            for p in prev - pids:
+                gone.setdefault(p, t)
+        prev = pids
+    t_end = samples[-1][0]
+    for e in events:
+        w = e.get("wpid")
+        if w is None or e.get("t") is None or e["t"] > t_end:
+            continue
+        if e.get("kind") == "post_fork":
+            born[w] = min(born.get(w, e["t"]), e["t"])
+        elif e.get("kind") == "child_exit":
+            gone[w] = min(gone.get(w, e["t"]), e["t"])
+    steps = sorted([(t, 1) for t in born.values()] + [(max(t, born.get(p, t)), -1) for p, t in gone.items()], key=lambda x: (x[0], x[1]))
+    size, low_since, reached = 0, None, False
+    for t, d in steps + [(t_end, 0)]:
+        if low_since is not None and t - low_since > slack:
+            return "by the record of forks and exits the pool stayed below %d for %.1f s (from %.1f s after the first sample on; %d " \
+                   "workers seen in all)" % (nworkers, t - low_since, low_since - samples[0][0], len(born))
+        size += d
+        if size >= nworkers:
+            reached, low_since = True, None
+        elif reached and low_since is None:
+            low_since = t
+    return None
+
+
 def live_scenario(run, e4, sc):
     v = []
     info = {}
@@ -394,13 +436,16 @@ def live_scenario(run, e4, sc):
 
         threads = [threading.Thread(target=client, daemon=True) for _ in range(conc)]
         pool_low = []
+        pool_samples = []
         stop = threading.Event()
 
         def watch_pool():
             low_since = None
             while not stop.is_set():
-                n = len(srv.worker_pids())
+                pids_now = srv.worker_pids()
+                n = len(pids_now)
                 now = time.monotonic()
+                pool_samples.append((now, frozenset(pids_now)))
                 if n < nworkers:
                     low_since = low_since or now
                     if now - low_since > 3.0:
@@ -491,14 +536,21 @@ def live_scenario(run, e4, sc):
                 v.append(("no-recycling-observed", "%d requests answered by %d pids only" % (len(log), len(per_pid))))
             else:
                 run.count("live_recycling_observed")
-                if sc.get("timeout") == 0 and not pool_low:
+                if sc.get("timeout") == 0 and not (pool_low and pool_accounting(pool_samples, srv.events(), nworkers)):
                     run.count("live_recycling_with_timeout_0")
                 if not sc.get("keepalive", 2):
                     run.count("live_recycling_with_keepalive_off/" + wc)
                 if sc.get("bind") == "unix":
                     run.count("live_recycling_on_unix_bind/" + wc)
             if pool_low:
-                v.append(("recycled-worker-not-replaced", "pool below %d for more than 3 s: %s" % (nworkers, pool_low[:2])))
+                # the sampled reading (every sample for 3 s showed fewer than `workers` processes) is checked against the account of
+                # forks and exits: with workers that live for a few requests a pool that IS refilled each time can be below target at
+                # every instant the (possibly starved) watcher looks
+                late = pool_accounting(pool_samples, srv.events(), nworkers)
+                if late:
+                    v.append(("recycled-worker-not-replaced", "pool below %d for more than 3 s: %s; %s" % (nworkers, pool_low[:2], late)))
+                else:
+                    run.count("live_pool_low_readings_refuted_by_fork_accounting")
         else:
             if set(per_pid) - set(w0):
                 v.append(("recycled-with-max-requests-unset", "pids %s answered, initial workers %s" % (sorted(per_pid), w0)))
